@@ -284,9 +284,13 @@ def spd_body(case):
     with judge('cholesky_solve'):
         x = np.asarray(x, dtype='f8')
         check(x.shape == bvec.shape and bool(np.all(x[n:] == 0)), 'solve:shape-or-padding')
-        ref = np.linalg.solve(A, bvec[:n])
-        check(bool(np.all(np.abs(x[:n] - ref) <= 1e-8 * max(np.abs(ref).max(), 1e-300) * np.linalg.cond(A) ** 0.5 + 1e-300)), 'solve:Ax-differs-from-b',
-              lambda: dict(maxdev=float(np.abs(x[:n] - ref).max()), cond=float(np.linalg.cond(A))))
+        # the reference solves the same system divided by the common factor (LAPACK's LU overflows on entries of 1e306; seen in a
+        # thorough run: pydl's answer was finite, the reference was not)
+        fac = case['scale'] if abs(math.log10(case['scale'])) > 100 else 1.0
+        ref = np.linalg.solve(A / fac, bvec[:n] / fac)
+        condA = np.linalg.cond(A / fac)
+        check(bool(np.all(np.abs(x[:n] - ref) <= 1e-8 * max(np.abs(ref).max(), 1e-300) * condA ** 0.5 + 1e-300)), 'solve:Ax-differs-from-b',
+              lambda: dict(maxdev=float(np.abs(x[:n] - ref).max()), cond=float(condA)))
 
 
 # ------------------------------------------------------------------ (3) non-SPD signalling
